@@ -1540,6 +1540,69 @@ fn await_loops(rng: &mut Rng, out: &mut Vec<Case>, n: usize) {
     }
 }
 
+/// Every sequence of exactly `len` ops over a 7-letter alphabet on one depth-2 ring, fixed 1 ms latency:
+/// push read / push write / push cancel-of-the-first / submit / advance 1 ms / sync / next.
+fn exhaustive(out: &mut Vec<Case>, len: usize) {
+    let cfg = Cfg { nfiles: 1, lat_min: 1_000_000, lat_max: 1_000_000, cache: false, fs_seed: 1, init: vec![vec![1, 2, 3, 4, 5, 6]] };
+    let mut idx = vec![0usize; len];
+    loop {
+        let mut ops = vec![Op::NewRing(2), Op::CqNew(0)];
+        let mut ud = 1u64;
+        for &a in &idx {
+            match a {
+                0 => {
+                    ops.push(Op::Push { ring: 0, ud, kind: Kind::Read { fd: 0, off: 1, len: 4 }, flags: 0 });
+                    ud += 1;
+                }
+                1 => {
+                    ops.push(Op::Push { ring: 0, ud, kind: Kind::Write { fd: 0, off: 2, data: vec![0xB0 + ud as u8, 0xC0 + ud as u8] }, flags: 0 });
+                    ud += 1;
+                }
+                2 => {
+                    ops.push(Op::Push { ring: 0, ud, kind: Kind::Cancel { target: 1 }, flags: 0 });
+                    ud += 1;
+                }
+                3 => ops.push(Op::Submit { ring: 0, mode: 0, want: 0 }),
+                4 => ops.push(Op::Advance(1_000_000)),
+                5 => ops.push(Op::CqSync(0)),
+                _ => ops.push(Op::Next(0)),
+            }
+        }
+        closing(&mut ops, 1);
+        out.push(Case { family: "exh", mode: "standalone", cfg: cfg.clone(), ops });
+        // next index vector
+        let mut i = len;
+        loop {
+            if i == 0 {
+                return;
+            }
+            i -= 1;
+            idx[i] += 1;
+            if idx[i] < 7 {
+                break;
+            }
+            idx[i] = 0;
+        }
+    }
+}
+
+/// One case: all 64 combinations of the six IOSQE flag bits.
+fn flag_sweep(out: &mut Vec<Case>) {
+    let cfg = Cfg { nfiles: 1, lat_min: 0, lat_max: 0, cache: false, fs_seed: 1, init: vec![vec![9, 9]] };
+    let mut ops = vec![Op::NewRing(64), Op::CqNew(0)];
+    for f in 0..64u8 {
+        ops.push(Op::Push { ring: 0, ud: f as u64, kind: Kind::Fsync { fd: 0 }, flags: f });
+    }
+    ops.push(Op::Push { ring: 0, ud: 64, kind: Kind::Fsync { fd: 0 }, flags: 0 }); // the 65th: full
+    ops.push(Op::Submit { ring: 0, mode: 0, want: 0 });
+    ops.push(Op::CqSync(0));
+    for _ in 0..66 {
+        ops.push(Op::NextOpt(0));
+    }
+    ops.push(Op::Final);
+    out.push(Case { family: "flagsweep", mode: "standalone", cfg, ops });
+}
+
 pub fn main(args: &Args, out: &mut dyn Write) {
     let mut rng = Rng::new(args.seed);
     let mut cases: Vec<Case> = vec![];
@@ -1632,6 +1695,8 @@ pub fn main(args: &Args, out: &mut dyn Write) {
             cases.push(Case { family: "simhost", mode: "sim", cfg, ops });
         }
         cancel_matrix(&mut rng, &mut cases);
+        flag_sweep(&mut cases);
+        exhaustive(&mut cases, if args.tier == "thorough" { 6 } else { 5 });
         crash_points(&mut rng, &mut cases, 30 * scale);
         durability(&mut rng, &mut cases, 120 * scale);
         if let Some(n) = args.cases {
